@@ -65,6 +65,21 @@ Fixpoint fe_err (u eta : Q) (B : nat -> Q) (e : fexpr) : Q :=
       (ma * eb + mb * ea + ea * eb) + u * ((ma + ea) * (mb + eb)) + eta
   end.
 
+(** The same analysis when the inputs themselves carry an error: the rounded evaluation runs on inputs that are within
+    [E n] of the exact ones (libm's sin / cos in from_angle). *)
+Fixpoint fe_err_in (u eta : Q) (B E : nat -> Q) (e : fexpr) : Q :=
+  match e with
+  | FVar n => E n
+  | FNeg a => fe_err_in u eta B E a
+  | FAdd a b | FSub a b =>
+      let ea := fe_err_in u eta B E a in let eb := fe_err_in u eta B E b in
+      (ea + eb) + u * (fe_mag B a + fe_mag B b + (ea + eb)) + eta
+  | FMul a b =>
+      let ea := fe_err_in u eta B E a in let eb := fe_err_in u eta B E b in
+      let ma := fe_mag B a in let mb := fe_mag B b in
+      (ma * eb + mb * ea + ea * eb) + u * ((ma + ea) * (mb + eb)) + eta
+  end.
+
 (** binary64: unit roundoff 2^-53, half the smallest subnormal 2^-1075. *)
 Definition u64 : Q := 1 # (2 ^ 53)%positive.
 Definition eta64 : Q := 1 # (2 ^ 1075)%positive.
@@ -80,6 +95,9 @@ Definition bounds (bm bv : Q) (n : nat) : Q := if Nat.ltb n 18 then bm else bv.
 (** The instance test: the error of every tree of the list is at most [tol]. *)
 Definition errs_within (bm bv tol : Q) (es : list fexpr) : bool :=
   forallb (fun e => Qle_bool (fe_err u64 eta64w (bounds bm bv) e) tol) es.
+(** ... with every input bounded by [b] and known within [d]. *)
+Definition errs_within_in (b d tol : Q) (es : list fexpr) : bool :=
+  forallb (fun e => Qle_bool (fe_err_in u64 eta64w (fun _ => b) (fun _ => d) e) tol) es.
 (** Number of rounded operations (for the report; a tree without any is not a float computation). *)
 Fixpoint fe_ops (e : fexpr) : nat :=
   match e with
